@@ -2,10 +2,13 @@ package rules
 
 import (
 	"fpcheck/core"
+
+	"golang.org/x/tools/go/packages"
 )
 
 func init() {
 	register("C12", "termination and laziness clauses of Iterator/List combinators", func(c *core.Ctx) {
+		MinMax(c, "R-MINMAX", []*packages.Package{c.Pkg("seq"), c.Pkg("list"), c.Pkg("iterator")})
 		Progress(c, "R-PROGRESS", libPkgs(c))
 		LazyCtor(c, "R-LAZY-CTOR", libPkgs(c))
 		ReadAhead(c, "R-READAHEAD", libPkgs(c))
